@@ -524,7 +524,8 @@ def mon_c05(tr: Trace) -> list[Violation]:
                 expect = budget
             else:
                 expect = fa[0][1] + 1 if fa[0][1] < budget else budget
-            run_over = tr.outcome[0] in ("cancelled", "timeout") or tr.outcome[0] == "error" and len(execs) < expect
+            # "runaway"/"aborted": the harness itself cut a self-feeding run short
+            run_over = tr.outcome[0] in ("cancelled", "timeout", "runaway", "aborted") or tr.outcome[0] == "error" and len(execs) < expect
             if len(execs) > expect or (len(execs) < expect and not run_over and tr.outcome[0] not in ("result", "error")):
                 out.append(Violation("C05/attempt_budget", f"{step} uid={uid}: executed {len(execs)} times, policy {sd.get('retry')} allows exactly {expect}", _replay(tr)))
         # reported attempts / elapsed in WorkflowFailedEvent
@@ -882,8 +883,13 @@ def mon_c10(tr: Trace, earlier_users: dict[tuple, set] | None = None) -> list[Vi
     # ... and the waiting step completes at most once per input event and attempt
     done_ok: dict[tuple, int] = {}
     wait_steps = {s["name"] for s in tr.spec["steps"] if any(a[0] == "wait" for a in s["script"])}
+    suspended: set = set()
     for rec in tr.steps:
-        if rec[0] == "exit" and rec[1] in wait_steps and rec[5].get("status") == "ok":
+        if rec[0] == "exit" and rec[1] in wait_steps and rec[5].get("status") == "raise:WaitingForEvent":
+            suspended.add((rec[1], rec[2], rec[3]))
+        # completions before the invocation ever suspended are collect_events re-runs (a body that returned early
+        # from a not-yet-complete collect), not resumptions of a wait
+        if rec[0] == "exit" and rec[1] in wait_steps and rec[5].get("status") == "ok" and (rec[1], rec[2], rec[3]) in suspended:
             done_ok[(rec[1], rec[2], rec[3])] = done_ok.get((rec[1], rec[2], rec[3]), 0) + 1
     for (step, uid, rn), n in done_ok.items():
         wids = {k[3] for k in per_wait if k[0] == step and k[1] == uid}
